@@ -325,6 +325,7 @@ func runC19(c *Ctx) {
 	c.Res.Rule = "settled DBs from random histories (150-400 puts/deletes/batches/large batches/CompactRange/reopen over 20-70 keys incl. the empty key and 0x00/0xff runs; tiny buffers so that several levels exist; the last writes stay in the journal; five comparers; bloom filter on/off; snappy on/off), closed once storage holds exactly the live files. Part A: manifest deleted / CURRENT cleared / manifest truncated at a random offset / manifest replaced by garbage, then leveldb.Recover: must succeed, full scan and every Get equal the plain map, then the DB is used (writes, CompactRange, Close) and reopened with Open with the expected contents. Part B: additionally 1-3 data blocks of live tables get one byte flipped (block boundaries from table.Reader.OffsetOf): Recover must succeed; every returned pair was written for that key at some time; every key whose newest version (value or tombstone, anywhere in the DB) lies outside the damaged blocks is returned with exactly that version; Get agrees with the scan. Part C (every history, alternating): one byte of the metaindex block of one, two or all live tables altered — nothing may be lost (oracle of part A); or the footer of one live table rewritten under an intact magic so that a block handle lies outside the file (offset / length just beyond or far beyond the end, 2^62, 2^63, 2^64-1, an overflowing varint; no lengths between 2^27 and 2^48) — that table counts as damaged as a whole (oracle of part B), Recover must not panic and the DB it returns must scan and Get without error. One evaluation = one recovered image; non-trivial = the DB had >= 2 tables and deletions (part B: at least one entry was in a damaged block); distinct by (history seed, variant, damage). Before those, on the real file storage: a process dies inside fileStorage.SetMeta (directory copied at a hooked system call of the second OpenFile), RecoverFile or OpenFile on the copy, synced writes, Close, OpenFile: every key written before and after must be readable."
 	once := &crSigOnce{}
 	c19StrictJournal(c, c.Scale(8, 100))
+	c19StrictReaderOnly(c, c.Scale(8, 100))
 	c19FileStorageRecover(c, c.Scale(16, 300))
 	if len(c.Res.Violations) == 0 {
 		c19FileStorageLegacyNames(c, c.Scale(6, 100))
